@@ -183,14 +183,15 @@ def prepare(case):
     carrier = rect.Carrier()
     carrier.factor = 10000
     if case["via"] == "allocation":
-        tree = [[[(x1 + x2) / 2, (y1 + y2) / 2, x2 - x1, y2 - y1], {"M": p}] for (x1, y1, x2, y2, p) in cells]
+        # a cell the module does not occupy usually has NO entry at all (every second empty cell here), not an explicit 0
+        tree = [[[(x1 + x2) / 2, (y1 + y2) / 2, x2 - x1, y2 - y1], ({"M": p} if p > 0 or n_ % 2 else {})] for n_, (x1, y1, x2, y2, p) in enumerate(cells)]
         from frame.geometry.geometry import Rectangle
         Rectangle.undefine_epsilon()
         ifile = _rio.get_alloc(tree)
         carrier.input_problem, carrier.selbox = _rio.select_box("M", ifile)
     elif case["via"] == "select_box":
         # the parsed-allocation structure handed to select_box directly: reaches origins an Allocation cannot have (negative coordinates)
-        rects = [{f"b{n}": [{"dim": [(x1 + x2) / 2, (y1 + y2) / 2, x2 - x1, y2 - y1]}, {"mod": [{"M": p}]}]} for n, (x1, y1, x2, y2, p) in enumerate(cells)]
+        rects = [{f"b{n}": [{"dim": [(x1 + x2) / 2, (y1 + y2) / 2, x2 - x1, y2 - y1]}, {"mod": ([{"M": p}] if p > 0 or n % 2 else [])}]} for n, (x1, y1, x2, y2, p) in enumerate(cells)]
         ifile = {"Width": case["xs"][-1] - case["xs"][0], "Height": case["ys"][-1] - case["ys"][0], "Rectangles": rects}
         carrier.input_problem, carrier.selbox = _rio.select_box("M", ifile)
     else:
